@@ -71,6 +71,10 @@ def reset_globals():
     import spydrnet as sdn
 
     sdn.namespace_manager.default = "DEFAULT"
+    # a case cut short by the watchdog can leave the manager's re-entrancy flag set (it is raised and
+    # lowered without try/finally in apply_namespace); a leak *within* a case is still seen by that case
+    if getattr(sdn.namespace_manager, "ignore_ns_change", False):
+        sdn.namespace_manager.ignore_ns_change = False
 
 
 def canonical_json(case):
